@@ -8,7 +8,7 @@
    (every library operation computes before it assigns).
    No proofs in this file. *)
 From Coq Require Import List NArith ZArith Arith Bool.
-From BSpl Require Import Scalar Outcome Support Poly Spline Ops Forms Generator Interp.
+From BSpl Require Import Scalar Outcome Support Poly Spline Ops Forms Generator Interp Solver.
 Import ListNotations.
 
 Section Pool.
@@ -44,9 +44,8 @@ Section Pool.
        ++ TN (nlen (scoefs s)) :: flat_map (fun c => TN (nlen c) :: map TF c) (scoefs s).
   Definition tok_obj (o : obj) : obs :=
     match o with VGrid g => tok_grid g | VSup s => tok_sup s | VSpl s => tok_spl s end.
-  Definition tok_row (r : row F) : obs :=
-    TT Trow :: TN (nlen (rentries r))
-       :: flat_map (fun '(j, v) => [TN (N.of_nat j); TF v]) (rentries r) ++ [TF (rrhs r)].
+  (* a row of the assembled system, densified: n matrix entries, then the rhs *)
+  Definition tok_row (n : nat) (r : row F) : obs := TT Trow :: map TF (dense_row n r).
 
   (* ---- typed slot access; a slot of the wrong kind is a harness error ---- *)
   Definition get_grid (st : state) (i : nat) : outcome (list F) :=
@@ -266,13 +265,13 @@ Section Pool.
         if (order =? 0)%nat || negb (length bs =? order - 1)%nat then UB IllTyped else
         do sys <- interp_system order s y bs;
         do r <- interp_build order s (solver (length sys) sys);
-        ret [(d, VSpl r)] (TT Tlist :: TN (nlen sys) :: flat_map tok_row sys)
+        ret [(d, VSpl r)] (TT Tlist :: TN (nlen sys) :: flat_map (tok_row (length sys)) sys)
     | InterpDefault d order x y =>
         do s <- get_sup st x;
         if (order =? 0)%nat then UB IllTyped else
         do sys <- interp_system order s y (default_boundaries order);
         do r <- interp_build order s (solver (length sys) sys);
-        ret [(d, VSpl r)] (TT Tlist :: TN (nlen sys) :: flat_map tok_row sys)
+        ret [(d, VSpl r)] (TT Tlist :: TN (nlen sys) :: flat_map (tok_row (length sys)) sys)
 
     | Show a =>
         match lookup st a with
